@@ -145,7 +145,11 @@ impl IteratorNext {
             .pop()
             .expect("iterator stack should have at least an iterator");
 
-        iterator.step(context)?;
+        // An iterator that reported `done` is never asked again (destructuring keeps going
+        // through its remaining elements with the record marked as done).
+        if !iterator.done() {
+            iterator.step(context)?;
+        }
 
         context.vm.frame_mut().iterators.push(iterator);
 
